@@ -5,8 +5,11 @@ mod c01;
 mod c02;
 mod c03r;
 mod c05;
+mod c05r;
 mod c06;
 mod c07;
+mod c08p;
+mod c10p;
 mod c17;
 mod drv;
 
@@ -24,8 +27,11 @@ fn main() {
         "c02" => c02::main(&args),
         "c03r" => c03r::main(&args),
         "c05" => c05::main(&args),
+        "c05r" => c05r::main(&args),
         "c06" => c06::main(&args),
         "c07" => c07::main(&args),
+        "c08p" => c08p::main(&args),
+        "c10p" => c10p::main(&args),
         "c17" => c17::main(&args),
         other => {
             eprintln!("unknown subcommand {other:?}");
